@@ -288,16 +288,40 @@ impl<'p> Program<'p> {
 
     /// Runs garbage collection unconditionally.
     pub fn gc(&mut self) {
+        #[cfg(rsjsonnet_verif)]
+        let verif_before = self.gc_ctx.num_objects();
         self.gc_ctx.gc();
         self.objs_after_last_gc = self.gc_ctx.num_objects();
+        #[cfg(rsjsonnet_verif)]
+        {
+            crate::verif::note_gc();
+            let verif_after = self.objs_after_last_gc;
+            crate::verif::emit(|| crate::verif::Event::Gc {
+                before: verif_before,
+                after: verif_after,
+            });
+        }
     }
 
     /// Runs garbage collection under certain conditions.
     pub fn maybe_gc(&mut self) {
+        #[cfg(rsjsonnet_verif)]
+        if let Some(collect) = crate::verif::schedule_decision() {
+            if collect {
+                self.gc();
+            }
+            return;
+        }
         let num_objects = self.gc_ctx.num_objects();
         if num_objects > 1000 && (num_objects / 2) > self.objs_after_last_gc {
             self.gc();
         }
+    }
+
+    /// Number of objects currently owned by the collector.
+    #[cfg(rsjsonnet_verif)]
+    pub fn verif_num_objects(&self) -> usize {
+        self.gc_ctx.num_objects()
     }
 
     /// Sets the maximum call stack size.
